@@ -116,6 +116,19 @@ def check_moves(ctx, R1='R1', R6='R6'):
                 if v.shape_of and v.shape_of[0] and v.shape_of[0][0] == 'd' and v.shape_of[0][1:].isdigit():
                     return int(v.shape_of[0][1:])
                 return None
+            gens = [g_ for g_ in ast.walk(src) if isinstance(g_, (ast.GeneratorExp, ast.ListComp)) and len(g_.generators) == 1
+                    and isinstance(g_.generators[0].iter, ast.Call) and norm_text(g_.generators[0].iter.func) == 'zip'
+                    and isinstance(g_.generators[0].target, ast.Tuple)]
+            zip_ok = None
+            for g_ in gens:
+                zargs = [norm_text(a_) for a_ in g_.generators[0].iter.args]
+                names = [norm_text(t_) for t_ in g_.generators[0].target.elts]
+                pair = dict(zip(names, zargs))
+                for b_ in ast.walk(g_.elt):
+                    if isinstance(b_, ast.BinOp) and isinstance(b_.op, ast.Mod):
+                        rsrc = pair.get(norm_text(b_.right))
+                        lnames = {pair.get(x.id) for x in ast.walk(b_.left) if isinstance(x, ast.Name)} - {None}
+                        zip_ok = bool(rsrc is not None and rsrc.endswith('.shape') and lnames and all(not n_.endswith('.shape') for n_ in lnames))
             tup = src if isinstance(src, ast.Tuple) else (src.args[0] if isinstance(src, ast.Call) and norm_text(src.func) == 'tuple' and src.args and isinstance(src.args[0], ast.Tuple) else None)
             if tup is not None and len(tup.elts) == 3 and all(isinstance(e_, ast.BinOp) and isinstance(e_.op, ast.Mod) for e_ in tup.elts):
                 # per-axis form (i % ni, j % nj, k % nk)
@@ -132,6 +145,9 @@ def check_moves(ctx, R1='R1', R6='R6'):
                     ok, msg = None, 'axes of the per-axis wrap not derivable'
                 else:
                     ok, msg = True, 'every axis wrapped with its own grid size'
+                cands = []
+            elif zip_ok:
+                ok, msg = True, 'every component wrapped with the extent of its own axis (zip over node, move and the shape)'
                 cands = []
             elif not cands:
                 ok, msg = False, 'the neighbour index is not reduced modulo the grid shape: paths cannot cross the periodic cell faces'
